@@ -54,46 +54,72 @@ fn drain(buf: &mut TokenBuffer<'static>, out: &mut [(TerminalIndex, u32, u32, To
     n
 }
 
+/// One token with a symbolic span added to an empty buffer: unmatched text before it becomes one
+/// INVALID_TOKEN skip token covering exactly the gap.
 #[kani::proof]
 #[kani::unwind(8)]
-fn c14_add_gap_tokens() {
+fn c14_gap_first_token() {
     let fname = Arc::new(PathBuf::new());
-    let (s1, e1, s2, e2): (u32, u32, u32, u32) = (kani::any(), kani::any(), kani::any(), kani::any());
-    // scanner contract: matches are non-empty, increasing and do not overlap
-    kani::assume(s1 < e1 && e1 <= s2 && s2 < e2 && e2 <= 4);
-    let n1: TokenNumber = kani::any();
-    kani::assume(n1 < 100);
+    let (s1, e1): (u32, u32) = (kani::any(), kani::any());
+    kani::assume(s1 < e1 && e1 <= 4);
     let mut buf = TokenBuffer::new();
-    buf.add(tok(&fname, s1, e1, 5, n1, false), INPUT);
-    buf.add(tok(&fname, s2, e2, 6, n1 + 1, false), INPUT);
-    // two significant tokens
-    assert!(buf.len() == 2);
-    let mut out = [(0u16, 0u32, 0u32, 0u32, false); 6];
-    let n = drain(&mut buf, &mut out);
-    // contiguity and coverage of input[0..e2]
-    let mut pos = 0u32;
-    let mut i = 0;
-    let mut sig = 0;
-    while i < 6 {
-        if i < n {
-            let (tt, s, e, _num, skip) = out[i];
-            assert!(s == pos && e > s);
-            pos = e;
-            if skip {
-                // a gap: unmatched text is an INVALID_TOKEN skip token
-                assert!(tt == INVALID_TOKEN);
-            } else {
-                assert!(tt == if sig == 0 { 5 } else { 6 });
-                assert!(if sig == 0 { s == s1 && e == e1 } else { s == s2 && e == e2 });
-                sig += 1;
-            }
-        }
-        i += 1;
+    buf.add(tok(&fname, s1, e1, 5, 0, false), INPUT);
+    assert!(buf.len() == 1);
+    let skips = buf.take_skip_tokens();
+    if s1 > 0 {
+        assert!(skips.len() == 1);
+        let g = &skips[0];
+        assert!(g.token_type == INVALID_TOKEN && g.location.start == 0 && g.location.end == s1);
+        assert!(g.text().len() == s1 as usize);
+        assert!(g.is_skip_token());
+    } else {
+        assert!(skips.len() == 0);
     }
-    assert!(pos == e2 && sig == 2);
-    assert!(n == 2 + (if s1 > 0 { 1 } else { 0 }) + (if s2 > e1 { 1 } else { 0 }));
-    kani::cover!(s1 > 0 && s2 > e1);
-    kani::cover!(s1 == 0 && s2 == e1 && e2 == 4);
+    core::mem::forget(skips);
+    let t = buf.consume();
+    match &t {
+        Ok(t) => assert!(t.token_type == 5 && t.location.start == s1 && t.location.end == e1),
+        Err(_) => assert!(false),
+    }
+    core::mem::forget(t);
+    assert!(buf.is_buffer_empty());
+    kani::cover!(s1 == 0);
+    kani::cover!(s1 == 3 && e1 == 4);
+    core::mem::forget(buf);
+}
+
+/// Second token after a first one at [0,1): the gap between them (if any) is one INVALID_TOKEN
+/// skip token [1, s2); contiguity up to e2.
+#[kani::proof]
+#[kani::unwind(8)]
+fn c14_gap_between_tokens() {
+    let fname = Arc::new(PathBuf::new());
+    let (s2, e2): (u32, u32) = (kani::any(), kani::any());
+    kani::assume(1 <= s2 && s2 < e2 && e2 <= 4);
+    let mut buf = TokenBuffer::new();
+    buf.add(tok(&fname, 0, 1, 5, 0, false), INPUT);
+    buf.add(tok(&fname, s2, e2, 6, 1, false), INPUT);
+    assert!(buf.len() == 2);
+    let first = buf.consume();
+    core::mem::forget(first);
+    let skips = buf.take_skip_tokens();
+    if s2 > 1 {
+        assert!(skips.len() == 1);
+        let g = &skips[0];
+        assert!(g.token_type == INVALID_TOKEN && g.location.start == 1 && g.location.end == s2);
+        assert!(g.text().len() == (s2 - 1) as usize);
+    } else {
+        assert!(skips.len() == 0);
+    }
+    core::mem::forget(skips);
+    let t = buf.consume();
+    match &t {
+        Ok(t) => assert!(t.token_type == 6 && t.location.start == s2 && t.location.end == e2),
+        Err(_) => assert!(false),
+    }
+    core::mem::forget(t);
+    kani::cover!(s2 == 1);
+    kani::cover!(s2 == 3);
     core::mem::forget(buf);
 }
 
@@ -199,5 +225,33 @@ fn c14_twin_must_fail() {
     let mut buf = TokenBuffer::new();
     buf.add(tok(&fname, 1, 2, 5, 0, false), INPUT);
     assert!(buf.len() == 2);
+    core::mem::forget(buf);
+}
+
+/// cost experiment: concrete span
+#[kani::proof]
+#[kani::unwind(8)]
+fn exp_gap_concrete() {
+    let fname = Arc::new(PathBuf::new());
+    let mut buf = TokenBuffer::new();
+    buf.add(tok(&fname, 1, 2, 5, 0, false), INPUT);
+    assert!(buf.len() == 1);
+    let skips = buf.take_skip_tokens();
+    assert!(skips.len() == 1);
+    core::mem::forget(skips);
+    core::mem::forget(buf);
+}
+
+/// cost experiment: add only, symbolic span, no draining
+#[kani::proof]
+#[kani::unwind(8)]
+fn exp_gap_add_only() {
+    let fname = Arc::new(PathBuf::new());
+    let (s1, e1): (u32, u32) = (kani::any(), kani::any());
+    kani::assume(s1 < e1 && e1 <= 4);
+    let mut buf = TokenBuffer::new();
+    buf.add(tok(&fname, s1, e1, 5, 0, false), INPUT);
+    assert!(buf.len() == 1);
+    assert!(buf.is_buffer_empty() == false);
     core::mem::forget(buf);
 }
